@@ -242,15 +242,18 @@ def _dataframe(ctx):
     tup = None
     cols = None
     for n in walk_no_nested(fn):
-        if isinstance(n, ast.ListComp) and isinstance(n.elt, ast.Tuple):
-            tup = n.elt
         if isinstance(n, ast.Call) and call_name(n) in ("pd.DataFrame", "DataFrame"):
             c = kwarg(n, "columns", 1)
             cols = const(c) if c is not None else None
+    # the per-atom row: the tuple with one element per column - the element of a comprehension over the atoms, or built in a loop and appended
+    cands = [n for n in walk_no_nested(fn) if isinstance(n, ast.Tuple) and cols is not None and len(n.elts) == len(cols) and any(isinstance(x, ast.Attribute) for e in n.elts for x in ast.walk(e))
+             and not all(isinstance(e, ast.Constant) for e in n.elts)]
+    tup = cands[0] if len(cands) == 1 else None
     if tup is None or cols is None or len(tup.elts) != len(cols):
         ctx.undecided("C04-R1", fn, TOP, q, "columns", "cannot pair the per-atom tuple with the columns list")
         return
-    written = {c: src(e) for c, e in zip(cols, tup.elts)}
+    from ..pyfront import inline_locals
+    written = {c: inline_locals(fn, e) for c, e in zip(cols, tup.elts)}
     fq = "Topology.from_dataframe"
     ffn = ctx.py.func(TOP, fq)
     read = set()
